@@ -12,7 +12,7 @@
      EvDeliver a b  poll_for_messages handles ONE message (server_received_a_message /
                     client_received_a_message)
      EvConnect c    ServerEvent::ClientConnected for c + c's verify_client_connected
-                    (InitialSync request)
+                    (clears despawned_locally, InitialSync request)
      EvLeave c      c vanishes from RenetServer::clients_id
 
    What a client that is NOT connected may do (design decision, documented as requested):
@@ -24,9 +24,15 @@
    here: the host-side table [conn] (the client side reaches ClientState::Connected no earlier than
    the host-side handshake, and c's first message on (c,0) is its EReqInit).
 
+   S18 repair (despawned_locally): a client remembers the uuids of synchronized entities it has
+   despawned ITSELF during the current session ([tomb]) and its receiver ignores an ESpawn for one of
+   them (checked before the duplicate guard).  The host keeps no tombstones.  EvLeave keeps the
+   departed client's entities and tombstones; the tombstones are cleared by the next EvConnect
+   (verify_client_connected, the moment the client requests its initial sync).
+
    Everything is computable (lists + gmap + decidable equality on N): step, run, init, quiescentb,
-   agreeb, known_S11, known_S18, dropped_uuids, spec_alive are meant to be extracted and replayed
-   against real traces. *)
+   agreeb, known_S11, dropped_uuids, spec_alive are meant to be extracted and replayed against real
+   traces. *)
 From Coq Require Import NArith List Bool Lia.
 From stdpp Require Import gmap list.
 Local Open Scope N_scope.
@@ -46,6 +52,8 @@ Record astate := {
   links  : gmap (peer * peer) (list emsg); (* (src, dst) -> FIFO queue *)
   used   : list uuid;                      (* uuids ever created (freshness) *)
   sent   : N;                              (* ghost counter: messages ever enqueued (C09) *)
+  tomb   : gmap peer (list uuid);          (* per CLIENT: uuids of synchronized entities it has despawned itself
+                                              in its current session (despawned_locally; cleared by EvConnect) *)
 }.
 
 Inductive event :=
@@ -59,6 +67,7 @@ Inductive event :=
 
 Definition get_ents (s : astate) (p : peer) : list uuid := default [] (ents s !! p).
 Definition get_link (s : astate) (a b : peer) : list emsg := default [] (links s !! (a, b)).
+Definition get_tomb (s : astate) (p : peer) : list uuid := default [] (tomb s !! p).
 
 (* remove ONE occurrence *)
 Fixpoint remove1 (u : uuid) (l : list uuid) : list uuid :=
@@ -71,30 +80,41 @@ Fixpoint remove1 (u : uuid) (l : list uuid) : list uuid :=
 
 Definition set_ents (s : astate) (p : peer) (l : list uuid) : astate :=
   {| ents := <[p := l]> (ents s); conn := conn s; synced := synced s; links := links s;
-     used := used s; sent := sent s |}.
+     used := used s; sent := sent s; tomb := tomb s |}.
 
 Definition add_used (s : astate) (u : uuid) : astate :=
   {| ents := ents s; conn := conn s; synced := synced s; links := links s;
-     used := u :: used s; sent := sent s |}.
+     used := u :: used s; sent := sent s; tomb := tomb s |}.
+
+(* a CLIENT remembers that it has despawned u itself; the host keeps no tombstones *)
+Definition add_tomb (s : astate) (p : peer) (u : uuid) : astate :=
+  {| ents := ents s; conn := conn s; synced := synced s; links := links s;
+     used := used s; sent := sent s;
+     tomb := if decide (p = 0) then tomb s else <[p := u :: get_tomb s p]> (tomb s) |}.
+
+(* a new session starts: the client forgets its tombstones *)
+Definition clear_tomb (s : astate) (c : peer) : astate :=
+  {| ents := ents s; conn := conn s; synced := synced s; links := links s;
+     used := used s; sent := sent s; tomb := <[c := []]> (tomb s) |}.
 
 Definition set_conn (s : astate) (cs sy : list peer) : astate :=
-  {| ents := ents s; conn := cs; synced := sy; links := links s; used := used s; sent := sent s |}.
+  {| ents := ents s; conn := cs; synced := sy; links := links s; used := used s; sent := sent s; tomb := tomb s |}.
 
 (* enqueue ms at the tail of link (a,b) *)
 Definition send (s : astate) (a b : peer) (ms : list emsg) : astate :=
   {| ents := ents s; conn := conn s; synced := synced s;
      links := <[(a, b) := get_link s a b ++ ms]> (links s);
-     used := used s; sent := sent s + N.of_nat (length ms) |}.
+     used := used s; sent := sent s + N.of_nat (length ms); tomb := tomb s |}.
 
 (* replace the queue of (a,b) (used to pop the head) *)
 Definition set_link (s : astate) (a b : peer) (q : list emsg) : astate :=
   {| ents := ents s; conn := conn s; synced := synced s; links := <[(a, b) := q]> (links s);
-     used := used s; sent := sent s |}.
+     used := used s; sent := sent s; tomb := tomb s |}.
 
 Definition drop_links (s : astate) (c : peer) : astate :=
   {| ents := ents s; conn := conn s; synced := synced s;
      links := delete (0, c) (delete (c, 0) (links s));
-     used := used s; sent := sent s |}.
+     used := used s; sent := sent s; tomb := tomb s |}.
 
 (* the host sends m to every client of cs *)
 Definition bcast (s : astate) (cs : list peer) (m : emsg) : astate :=
@@ -127,7 +147,10 @@ Definition host_handle (s : astate) (c : peer) (m : emsg) : astate :=
 (* client_received_a_message on client c; clients never relay *)
 Definition client_handle (s : astate) (c : peer) (m : emsg) : astate :=
   match m with
-  | ESpawn u => if bool_decide (u ∈ get_ents s c) then s else set_ents s c (u :: get_ents s c)
+  | ESpawn u =>
+      if bool_decide (u ∈ get_tomb s c) then s          (* despawned_locally: ignored (S18 repair) *)
+      else if bool_decide (u ∈ get_ents s c) then s     (* duplicate guard *)
+      else set_ents s c (u :: get_ents s c)
   | EDelete u => set_ents s c (remove1 u (get_ents s c))
   | EReqInit | EFinInit => s
   end.
@@ -142,7 +165,7 @@ Definition step (s : astate) (e : event) : option astate :=
       else None
   | EvDespawn p u =>
       if peer_on s p && bool_decide (u ∈ get_ents s p) then
-        Some (announce (set_ents s p (remove1 u (get_ents s p))) p (EDelete u))
+        Some (announce (add_tomb (set_ents s p (remove1 u (get_ents s p))) p u) p (EDelete u))
       else None
   | EvDeliver src dst =>
       match get_link s src dst with
@@ -156,7 +179,7 @@ Definition step (s : astate) (e : event) : option astate :=
       end
   | EvConnect c =>
       if bool_decide (c <> 0) && bool_decide (c ∉ conn s) then
-        Some (send (set_conn s (c :: conn s) (synced s)) c 0 [EReqInit])
+        Some (send (clear_tomb (set_conn s (c :: conn s) (synced s)) c) c 0 [EReqInit])
       else None
   | EvLeave c =>
       if bool_decide (c ∈ conn s) then
@@ -172,7 +195,7 @@ Fixpoint run (s : astate) (tr : list event) : option astate :=
   end.
 
 Definition init : astate :=
-  {| ents := ∅; conn := []; synced := []; links := ∅; used := []; sent := 0 |}.
+  {| ents := ∅; conn := []; synced := []; links := ∅; used := []; sent := 0; tomb := ∅ |}.
 
 (* ---------- observations --------------------------------------------------------------------- *)
 
@@ -229,7 +252,8 @@ Definition dropped_at (s : astate) (e : event) : list uuid :=
   match e with EvLeave c => mjoin (msg_uuid <$> get_link s c 0) | _ => [] end.
 Definition dropped_uuids (tr : list event) : list uuid := collect dropped_at init tr.
 
-(* membership of u at a client after it has handled the queue q, starting from membership b *)
+(* membership of u at a client WITHOUT a tombstone for u after it has handled the queue q, starting
+   from membership b (with a tombstone for u the client does not hold u and never will) *)
 Definition after_msg (u : uuid) (b : bool) (m : emsg) : bool :=
   match m with
   | ESpawn v => if decide (v = u) then true else b
@@ -255,30 +279,14 @@ Definition bad_S11 (s : astate) (e : event) : bool :=
   end.
 Definition known_S11 (tr : list event) : bool := scan bad_S11 init tr.
 
-(* S18: a client c despawns its replica of u while a (re-)creation of u is still on its way to c:
-   the last message about u queued on (0,c) is an ESpawn (a live/snapshot duplicate), or c's
-   snapshot has not been built yet and the host holds u (the snapshot will contain u).  c's EDelete
-   is never echoed back to c, so the late ESpawn re-creates u on c only. *)
-Definition bad_S18 (s : astate) (e : event) : bool :=
-  match e with
-  | EvDespawn c u =>
-      bool_decide (c <> 0) &&
-      (after_msgs u false (get_link s 0 c) || (pending s c && bool_decide (u ∈ get_ents s 0)))
-  | _ => false
-  end.
-Definition known_S18 (tr : list event) : bool := scan bad_S18 init tr.
-
-(* A wider, purely "temporal" description of the S18 class: c despawns something between its
-   EvConnect and the delivery of its EFinInit. *)
-Definition in_sync_window (s : astate) (c : peer) : bool :=
-  bool_decide (c ∈ conn s) &&
-  (negb (bool_decide (c ∈ synced s)) || bool_decide (EFinInit ∈ get_link s 0 c)).
-Definition bad_S18_window (s : astate) (e : event) : bool :=
-  match e with
-  | EvDespawn c u => bool_decide (c <> 0) && in_sync_window s c
-  | _ => false
-  end.
-Definition known_S18_window (tr : list event) : bool := scan bad_S18_window init tr.
+(* S18 (a client despawns its replica of u while a live / snapshot duplicate ESpawn u is still on its
+   way to it, and the late ESpawn re-creates u on that client only) is REPAIRED: the client keeps the
+   uuids it has despawned itself during the CURRENT session ([tomb], despawned_locally, cleared when
+   the client requests its next initial sync) and its receiver ignores an EntitySpawn for one of
+   them.  The classes known_S18 / known_S18_window are gone.  (Tombstones that survived a
+   re-connection would be a defect of their own: the EDelete that justified one may have been
+   dropped with the link, the host then still holds u and the snapshot's ESpawn u would be ignored
+   for ever; see EntitiesProofs.lost_delete_rejoin_agrees.) *)
 
 (* ---------- traffic monitors (C09) ----------------------------------------------------------- *)
 
